@@ -1783,6 +1783,9 @@ impl<'a, 'b, W: Write> SerializeSeq for SeqSer<'a, 'b, W> {
                 if !self.ser.at_line_start {
                     self.ser.newline()?;
                 }
+                // The sequence starts on a line of its own: the first dash is indented like the
+                // others, whatever the hint left by the `:` of a complex key says.
+                self.ser.pending_inline_map = false;
             }
             // If previous element was an inline map after a dash, just clear the flag; do not change depth.
             if !self.first && self.ser.inline_map_after_dash {
